@@ -48,7 +48,7 @@ fn emit<const D: usize>(id: &str, variant: &str, pts: &[Vec<f64>], out: &mut Out
 }
 
 fn simplex(rng: &mut Rng, d: usize) -> (Vec<Vec<f64>>, &'static str) {
-    match rng.below(6) {
+    match rng.below(7) {
         0 => {
             // skinny: one vertex far along an axis (aspect up to 2^20)
             let mut pts: Vec<Vec<f64>> = vec![vec![0.0; d]];
@@ -63,6 +63,15 @@ fn simplex(rng: &mut Rng, d: usize) -> (Vec<Vec<f64>>, &'static str) {
             let mut f = gens::to_f(&base, 1.0, 0.0);
             if f.len() == d + 1 { let m: Vec<f64> = (0..d).map(|i| (f[0][i] + f[1][i]) / 2.0).collect(); f[d] = m; }
             (f, "degenerate")
+        }
+        5 => {
+            // far from the origin with wide mantissas: offset 2^26..2^30 plus multiples of 2^-20
+            // (all exactly representable); formulas that multiply absolute coordinates lose ~1e-7
+            let off = 2f64.powi([26, 28, 30][rng.below(3) as usize]);
+            let base = gens::random_grid(rng, d, d + 1, 1 << 20);
+            let mut f = gens::to_f(&base, 2f64.powi(-20), 0.0);
+            for p in f.iter_mut() { for (a, x) in p.iter_mut().enumerate() { *x += off * (1.0 + a as f64); } }
+            (f, "far_fine")
         }
         2 => { let base = gens::random_grid(rng, d, d + 1, 3); (gens::to_f(&base, 0.25, 0.0), "small_quarter") }
         3 => { let base = gens::random_grid(rng, d, d + 1, 40); (gens::to_f(&base, 1.0, 0.0), "wide") }
